@@ -146,7 +146,10 @@ def run(ctx: Ctx):
     report(ctx, fb, o, "from_bool(QF)")
     fr_loops = [(n, t, v) for (n, t, v) in o.bit_loops]
     ok = any(v.lay == "FR" for _, _, v in fr_loops)
-    ctx.check(ok, "OR-FLOW", fb, "fraction bits weighted MSB-first", "loop over the MSB-first fraction with weight 2**-(i+1)", f"the fractional weights are not accumulated over the MSB-first fraction (loops over {[(t, str(v)) for _, t, v in fr_loops]})", fb.node)
+    if not fr_loops:
+        ctx.undecided(fb.short, "no loop over bits in the fixed-point decoder: the fraction is decoded in a form outside the tables")
+    else:
+        ctx.check(ok, "OR-FLOW", fb, "fraction bits weighted MSB-first", "loop over the MSB-first fraction with weight 2**-(i+1)", f"the fractional weights are not accumulated over the MSB-first fraction (loops over {[(t, str(v)) for _, t, v in fr_loops]})", fb.node)
     if ok:
         lp = [n for n, _, v in fr_loops if v.lay == "FR"][0]
         # weight of the k-th visited bit (k = 0 first): 2 ** -(k + 1), whatever the counter starts at
